@@ -129,12 +129,16 @@ func init() {
 		Tasks: func(tier string) []Task {
 			if tier == "quick" {
 				return seqTasks("C17", []seqLevel{
+					{Name: "long-keys-d5", Cfgs: longKeyCfgs(), Keys: c18LongKeys, Alpha: longKeyMergeAlphabet, Depth: 5, Dev: 3, Run: runC17},
+					{Name: "same-offset-d6", Cfgs: []Cfg{blockCfg()}, Keys: keysAB, Alpha: sameOffsetAlphabet, Depth: 6, Dev: 6, Run: runC17},
 					{Name: "tiny-d3b2", Cfgs: tinyCfgs(), Keys: keysAB, Alpha: tinyAlphabet, Depth: 3, Dev: 2, Run: runC17},
 					{Name: "tiny-d4b2", Cfgs: []Cfg{defaultCfg}, Keys: keysAB, Alpha: tinyAlphabet, Depth: 4, Dev: 2, Run: runC17},
 					{Name: "block-d3b2", Cfgs: []Cfg{blockCfg()}, Keys: keysAB, Alpha: blockAlphabet, Depth: 3, Dev: 2, Run: runC17},
 				})
 			}
 			return seqTasks("C17", []seqLevel{
+				{Name: "long-keys-d6", Cfgs: longKeyCfgs(), Keys: c18LongKeys, Alpha: longKeyMergeAlphabet, Depth: 6, Dev: 3, Run: runC17},
+				{Name: "same-offset-d7", Cfgs: []Cfg{blockCfg()}, Keys: keysAB, Alpha: sameOffsetAlphabet, Depth: 7, Dev: 7, Run: runC17},
 				{Name: "tiny-d4b3", Cfgs: tinyCfgs(), Keys: keysAB, Alpha: tinyAlphabet, Depth: 4, Dev: 3, Run: runC17},
 				{Name: "tiny-d5b3", Cfgs: []Cfg{defaultCfg}, Keys: keysAB, Alpha: tinyAlphabet, Depth: 5, Dev: 3, Split: 2, Run: runC17},
 				{Name: "block-d4b3", Cfgs: []Cfg{blockCfg()}, Keys: keysAB, Alpha: blockAlphabet, Depth: 4, Dev: 3, Run: runC17},
